@@ -6,7 +6,7 @@ SEEDS=${@:-"1 2 3"}
 bad=0
 for seed in $SEEDS; do
   for p in $(python3 -c "import json; print(' '.join(c['property_id'] for c in json.load(open('MANIFEST.json'))['checks']))"); do
-    out=$(VERIF_SEED=$seed ${SOAK_BUDGET_S:+VERIF_BUDGET_S=$SOAK_BUDGET_S} VERIF_OUT=${SOAK_OUT:-/var/tmp/soak-out} python3 bin/vcheck.py $p quick 2>&1); rc=$?
+    out=$(env VERIF_SEED=$seed ${SOAK_BUDGET_S:+VERIF_BUDGET_S=$SOAK_BUDGET_S} VERIF_OUT=${SOAK_OUT:-/var/tmp/soak-out} python3 bin/vcheck.py $p quick 2>&1); rc=$?
     echo "seed=$seed $p exit=$rc $(echo "$out" | grep '^runs=' | cut -c1-120)"
     if [ $rc -ne 0 ]; then bad=1; echo "$out" | grep -v '"stacks"' | cut -c1-1500 | tail -25; fi
   done
